@@ -100,7 +100,7 @@ func template(t *rapid.T, label string, earlier, later []string, st *gstats, isN
 var rec = ev.New("TestPropEnvBlock", "env blocks of 0-12 entries whose names and values are templates over literals, references to runtime variables, earlier entries (chains), later entries (forward references), names built by expansion, escapes, defaults and rare failing ${X?}; x preferRuntimeEnv x caller env in {case-sensitive, case-folding, recording, nil}; steps referencing block and runtime variables; reference = in-order fold with ordered-dictionary renames over the harness env using interpolate.Interpolate as the expansion function; non-trivial = chain of >= 3 dependent entries, or a forward reference, or an overlap with the runtime env under prefer=true, or a case-only name difference under the folding env; distinct by hash of (block, env, flags)")
 
 func TestPropEnvBlock(t *testing.T) {
-	ev.Check(t, 30000, 150000, func(t *rapid.T) {
+	ev.Check(t, 30000, 1000000, func(t *rapid.T) {
 		st := &gstats{}
 		n := rapid.IntRange(0, 12).Draw(t, "n")
 		// plan the literal names first so templates can reference earlier / later ones
